@@ -5,7 +5,7 @@ guard class and to know which registers a collection keeps."""
 
 class Ctx:
     def __init__(self, n):
-        assert 0 <= n <= 6
+        assert 0 <= n <= 12
         self.n = n
         self.rows = 1 << n
         self.mask = (1 << self.rows) - 1
